@@ -186,6 +186,19 @@ fn run_history(m: &mut ReManager, prog: &Program, noise_n: usize, rng: &mut Rng,
             let _ = guard(|| m.set_derivative_unchecked(t, &CharSet::range(0, MAXC_)));
             let _ = guard(|| m.start_class(t, ClassId::Interval(9999)));
         }
+        // list constructors whose operand iterator fails after one or two items, and one-element lists
+        if let Some(&t0) = terms.first() {
+            rep.count("failing_calls_survived_before_reissue", 3);
+            let failing = |n: usize| terms.iter().copied().take(n).chain(std::iter::once_with(|| -> RegLan { panic!("the caller's iterator fails") }));
+            let _ = guard(|| m.union_list(failing(1)));
+            let _ = guard(|| m.inter_list(failing(2)));
+            let _ = guard(|| m.concat_list(failing(2)));
+            let one = (m.union_list([t0].into_iter()), m.inter_list([t0].into_iter()), m.concat_list([t0].into_iter()));
+            if !std::ptr::eq(one.0, t0) || !std::ptr::eq(one.1, t0) || !std::ptr::eq(one.2, t0) {
+                rep.violation("reissue", "reissue:one-element-list", format!("[{}] union_list / inter_list / concat_list of the one-element list [{}] is not that element", label, term_text(t0)), KIND_MGR, &case, seed);
+                return None;
+            }
+        }
     }
     for k in 0..terms.len() {
         rep.inc("constructor_calls_reissued");
@@ -306,6 +319,22 @@ fn run_wrapped_thread(prog: &Program, noise_n: usize, seed: u64, thorough: bool)
             w::verif_with_manager(|m| noise(m, &mut rng, &[], noise_n, 200));
             let (run, _) = run_wrap(&prog, usize::MAX);
             w::verif_with_manager(|m| noise(m, &mut rng, &run.terms, noise_n / 2, 200));
+            // a list wrapper whose operand iterator fails half-way, survived by the caller: the terms handed out
+            // before must remain the terms of this thread's manager
+            if let Some(&first) = run.terms.first() {
+                for which in 0..4 {
+                    rep.inc("list_wrapper_calls_with_a_failing_iterator_survived");
+                    let _ = guard(|| {
+                        let it = run.terms.iter().copied().take(2).chain(std::iter::once_with(|| -> RegLan { panic!("the caller's iterator fails") }));
+                        match which {
+                            0 => w::re_union_list(it),
+                            1 => w::re_inter_list(it),
+                            2 => w::re_concat_list(it),
+                            _ => w::re_diff_list(first, it),
+                        }
+                    });
+                }
+            }
             for k in 0..run.terms.len() {
                 rep.inc("wrapper_calls_reissued");
                 match guard(|| prog.ops[k].apply_wrap(&run.terms)) {
